@@ -38,6 +38,14 @@ Fixpoint drop_prefix (p s : string) : string :=
 
 Definition is_type_call (callee : string) : bool := streq (last_name callee) "type".
 
+(* this->a.b.c : a path of data members starting at the object itself *)
+Fixpoint member_path (e : cexpr) : bool :=
+  match e with
+  | CThis => true
+  | CField _ r => member_path r
+  | _ => false
+  end.
+
 Definition classify (e : cexpr) : type_rule :=
   match e with
   | CCall callee recv args =>
@@ -61,7 +69,9 @@ Definition classify (e : cexpr) : type_rule :=
       else NoRule "field"
   | CField f (CField g CThis) => if streq f "first" && streq g "rep" then FirstOperand else NoRule "field2"
   | CField f (CField g (CField h CThis)) =>
-      if streq f "type" && streq g "master_data" && streq h "decl_data" then DeclType else NoRule "field3"
+      if streq f "type" && streq g "master_data" && streq h "decl_data" then DeclType
+      else if streq f "decls" && member_path (CField g (CField h CThis)) then Members      (* the typed sequence of a member scope, named directly *)
+      else NoRule "field3"
   | _ => NoRule "shape"
   end.
 
